@@ -29,7 +29,7 @@ import (
 // independent whole-string matcher built from the *bare* pattern (two
 // constructions, cross-checked against each other).
 //
-// One case in ten takes the whole way instead (RPC: true): a real agent with
+// About one case in twenty-five takes the whole way instead (RPC: true): a real agent with
 // its IPC server on loopback, members made known to its Serf through the
 // memberlist notifications (alive / leaving / left / failed), and the real
 // client's MembersFiltered; the oracle then filters what the same client's
@@ -191,7 +191,7 @@ func genC26(t *rapid.T) c26Case {
 	if rapid.IntRange(0, 9).Draw(t, "hasname") < 6 {
 		c.Name = c26Pattern(t, c26NameLits)
 	}
-	c.RPC = rapid.IntRange(0, 9).Draw(t, "rpc") == 9
+	c.RPC = rapid.IntRange(0, 23).Draw(t, "rpc") == 11 // (a mid-range value: rapid favours the ends)
 	return c
 }
 
